@@ -48,6 +48,13 @@ Class(size, off, len, blk) ==
     ELSE IF Min(EffBlock(size, off, len, blk), RangeLen(size, off, len)) > ReadChunk THEN "block_over_read_chunk"
     ELSE IF len = 0 THEN "to_eof" ELSE "inside"
 
+\* the request carries a preference list of hash names; the server has md5 and sha1 (sftp_server.py:_hash_class)
+Supported == {"md5", "sha1"}
+RECURSIVE FirstSupported(_)
+FirstSupported(names) == IF names = <<>> THEN "none"
+                         ELSE IF Head(names) \in Supported THEN Head(names) ELSE FirstSupported(Tail(names))
+Listed(names) == {names[i] : i \in 1..Len(names)}
+
 (* ------------------------------ part 2: the server loop ------------------------------ *)
 VARIABLES size, start, length, bsize,    \* the file and the request
           pc, len, blk,                  \* control; effective length / block size
